@@ -132,6 +132,10 @@ def gen_jobs(tier, seed):
                 m["pos"].reverse()
             for c in calls:
                 c["pos"].reverse()
+        if q % 7 == 3 and not any(m["kwn"] for m in methods):
+            # every parameter positional-only
+            for m in methods:
+                m["posonly"] = len(m["pos"])
         jobs.append({"id": f"C14-{q}", "world": w, "calls": calls})
     return jobs
 
